@@ -1,0 +1,28 @@
+//go:build verif
+
+package cmd
+
+import (
+	"github.com/owenrumney/go-sarif/v2/sarif"
+	"github.com/shivasurya/code-pathfinder/sourcecode-parser/graph"
+)
+
+// Exports for the verification harness (build tag verif only).
+
+func VerifProcessQuery(input string, codeGraph *graph.CodeGraph, output string) (string, error) {
+	return processQuery(input, codeGraph, output)
+}
+
+func VerifExecuteCLIQuery(project, query, output string, stdin bool) (string, error) {
+	return executeCLIQuery(project, query, output, stdin)
+}
+
+func VerifLoadRules(rulesDirectory string, isHosted bool) ([]string, error) {
+	return loadRules(rulesDirectory, isHosted)
+}
+
+func VerifDownloadRuleset(ruleset string) ([]string, error) { return downloadRuleset(ruleset) }
+
+func VerifGenerateSarifReport(results []map[string]interface{}) (*sarif.Report, error) {
+	return generateSarifReport(results)
+}
